@@ -1,4 +1,601 @@
-//! secretbundle: not built yet.
-pub fn run(args: &vh_common::Args) {
-    vh_common::unknown(args)
+//! SecretBundle (C36): `p2panda_encryption::data_scheme::group_secret::SecretBundle`
+//! (`insert`, `remove`, `extend`, `from_secrets`, `generate`) against spec/SecretBundle.
+//!
+//! Spec ids are small integers ordered like the real 32-byte SHA-256 ids; the harness owns a pool
+//! of real secrets whose ids are sorted accordingly (rank r <-> pool secret r). A secret returned
+//! by the real `generate` gets the spec id the behaviour prescribes by choosing the RNG seed such
+//! that its real id falls between the real ids of the neighbouring spec ids.
+//!
+//! Spec timestamps are mapped by a shift: mode "now" maps the spec's wall clock reading to the
+//! real `SystemTime::now()` second (the behaviour is re-run if the second changes while it runs),
+//! mode "top" maps the spec's TopT to `u64::MAX`.
+use std::collections::{BTreeMap, BTreeSet};
+use std::time::{SystemTime, UNIX_EPOCH};
+
+use p2panda_encryption::Rng as CryptoRng;
+use p2panda_encryption::data_scheme::group_secret::{
+    GroupSecret, GroupSecretId, SecretBundle, SecretBundleState,
+};
+use vh_common::{Args, Outcome, Rng, TraceWriter, Value, catch, json, read_ndjson, unknown};
+
+pub fn run(args: &Args) {
+    match args.mode.as_str() {
+        "replay" => replay(args),
+        "record" => record(args),
+        _ => unknown(args),
+    }
+}
+
+fn now_secs() -> u64 {
+    SystemTime::now().duration_since(UNIX_EPOCH).expect("clock before epoch").as_secs()
+}
+
+const POOL: usize = 8;
+const SEEDS: u64 = 4096;
+
+fn seed32(s: u64) -> [u8; 32] {
+    let mut out = [7u8; 32];
+    out[..8].copy_from_slice(&s.to_le_bytes());
+    out
+}
+
+struct World {
+    /// pool[r-1]: secret bytes whose id has rank r among the pool.
+    pool: Vec<[u8; 32]>,
+    pool_ids: Vec<GroupSecretId>,
+    /// (id of the secret `generate` returns with `Rng::from_seed(seed32(s))`, s), sorted by id.
+    gen_ids: Vec<(GroupSecretId, u64)>,
+}
+
+impl World {
+    fn new() -> World {
+        // Pool secrets: first id byte = r * 256/(POOL+1), so the gaps between them are wide.
+        let mut pool = Vec::new();
+        let mut pool_ids = Vec::new();
+        let mut counter: u64 = 0;
+        for r in 1..=POOL {
+            let want = (r * 256 / (POOL + 1)) as u8;
+            loop {
+                counter += 1;
+                let mut bytes = [0u8; 32];
+                bytes[..8].copy_from_slice(&counter.to_le_bytes());
+                let id = GroupSecret::new(bytes, 0).id();
+                if id[0] == want {
+                    pool.push(bytes);
+                    pool_ids.push(id);
+                    break;
+                }
+            }
+        }
+        let empty = SecretBundle::init();
+        let mut gen_ids: Vec<(GroupSecretId, u64)> = (0..SEEDS)
+            .map(|s| {
+                let g = SecretBundle::generate(&empty, &CryptoRng::from_seed(seed32(s)))
+                    .expect("generate on empty bundle");
+                (g.id(), s)
+            })
+            .collect();
+        gen_ids.sort();
+        World { pool, pool_ids, gen_ids }
+    }
+}
+
+/// Per-behaviour binding of spec ids / timestamps to real ones.
+struct Binding<'w> {
+    w: &'w World,
+    /// spec id -> generated real secret
+    generated: BTreeMap<u64, GroupSecret>,
+    used_seeds: BTreeSet<u64>,
+    /// real = spec + shift (as i128)
+    shift: i128,
+}
+
+impl<'w> Binding<'w> {
+    fn real_ts(&self, spec: u64) -> Option<u64> {
+        let v = spec as i128 + self.shift;
+        if v < 0 || v > u64::MAX as i128 { None } else { Some(v as u64) }
+    }
+    fn spec_ts(&self, real: u64) -> i128 {
+        real as i128 - self.shift
+    }
+    fn real_id(&self, spec: u64) -> GroupSecretId {
+        match self.generated.get(&spec) {
+            Some(g) => g.id(),
+            None => self.w.pool_ids[spec as usize - 1],
+        }
+    }
+    fn spec_id(&self, real: &GroupSecretId) -> i64 {
+        for (k, g) in &self.generated {
+            if &g.id() == real {
+                return *k as i64;
+            }
+        }
+        for (r, id) in self.w.pool_ids.iter().enumerate() {
+            if id == real {
+                return r as i64 + 1;
+            }
+        }
+        -1
+    }
+    fn secret(&self, spec_id: u64, spec_ts: u64) -> GroupSecret {
+        let ts = self.real_ts(spec_ts).expect("spec timestamp not representable");
+        match self.generated.get(&spec_id) {
+            Some(g) => {
+                if g.timestamp() != ts {
+                    eprintln!("harness: behaviour hands in generated secret {spec_id} under another timestamp");
+                    std::process::exit(2);
+                }
+                g.clone()
+            }
+            None => GroupSecret::new(self.w.pool[spec_id as usize - 1], ts),
+        }
+    }
+    /// RNG seed whose generated secret has an id strictly between the real ids of the
+    /// neighbouring spec ids (pool ids of ids that are not generated, generated ids otherwise).
+    fn seed_for(&mut self, spec_id: u64) -> u64 {
+        let mut lo: Option<GroupSecretId> = None;
+        let mut hi: Option<GroupSecretId> = None;
+        for r in 1..=POOL as u64 {
+            if r == spec_id {
+                continue;
+            }
+            let id = self.real_id(r);
+            if r < spec_id {
+                lo = Some(lo.map_or(id, |l| l.max(id)));
+            } else {
+                hi = Some(hi.map_or(id, |h| h.min(id)));
+            }
+        }
+        for (id, s) in &self.w.gen_ids {
+            if lo.is_some_and(|l| *id <= l) || hi.is_some_and(|h| *id >= h) || self.used_seeds.contains(s) {
+                continue;
+            }
+            self.used_seeds.insert(*s);
+            return *s;
+        }
+        eprintln!("harness: no RNG seed yields an id of rank {spec_id}");
+        std::process::exit(2);
+    }
+}
+
+fn content(b: &Binding, y: &SecretBundleState) -> BTreeSet<(i64, i128)> {
+    y.iter().map(|(id, s)| (b.spec_id(id), b.spec_ts(s.timestamp()))).collect()
+}
+
+fn content_from_spec(v: &Value) -> BTreeSet<(i64, i128)> {
+    v.as_array()
+        .expect("bundle array")
+        .iter()
+        .map(|e| (e["id"].as_i64().unwrap(), e["ts"].as_i64().unwrap() as i128))
+        .collect()
+}
+
+/// The property's own definition on the real state: latest = max by (timestamp, id).
+fn real_max(y: &SecretBundleState) -> Option<GroupSecretId> {
+    y.iter().map(|(id, s)| (s.timestamp(), *id)).max().map(|(_, id)| id)
+}
+
+enum Verdict {
+    Ok,
+    ClockMoved,
+    Violation(&'static str, String),
+}
+
+fn replay_one(w: &World, b: &Value, out: &mut Outcome) -> Verdict {
+    let mode = b["base"].as_str().expect("base");
+    let top = b["top"].as_u64().expect("top");
+    let wall = b["wall"].as_u64().expect("wall");
+    let now0 = now_secs();
+    let shift = match mode {
+        "now" => now0 as i128 - wall as i128,
+        "top" => u64::MAX as i128 - top as i128,
+        _ => {
+            eprintln!("unknown base {mode}");
+            std::process::exit(2);
+        }
+    };
+    let mut bind = Binding { w, generated: BTreeMap::new(), used_seeds: BTreeSet::new(), shift };
+    let mut y = SecretBundle::init();
+    let mut generated_any = false;
+    for (k, step) in b["steps"].as_array().expect("steps").iter().enumerate() {
+        let op = step["op"].as_str().expect("op");
+        match op {
+            "insert" => {
+                let s = bind.secret(step["id"].as_u64().unwrap(), step["ts"].as_u64().unwrap());
+                match catch(move || SecretBundle::insert(y, s)) {
+                    Ok(n) => y = n,
+                    Err(p) => return Verdict::Violation("bundle-panics", format!("step {k} insert: {p}")),
+                }
+            }
+            "remove" => {
+                let id = bind.real_id(step["id"].as_u64().unwrap());
+                match catch(move || SecretBundle::remove(y, &id)) {
+                    Ok((n, removed)) => {
+                        y = n;
+                        if removed.is_some() != step["present"].as_bool().unwrap() {
+                            return Verdict::Violation(
+                                "bundle-differs-from-spec",
+                                format!("step {k} remove returned {:?}", removed.map(|s| s.timestamp())),
+                            );
+                        }
+                    }
+                    Err(p) => return Verdict::Violation("bundle-panics", format!("step {k} remove: {p}")),
+                }
+            }
+            "extend" => {
+                let secrets: Vec<GroupSecret> = step["other"]
+                    .as_array()
+                    .unwrap()
+                    .iter()
+                    .map(|e| bind.secret(e["id"].as_u64().unwrap(), e["ts"].as_u64().unwrap()))
+                    .collect();
+                match catch(move || SecretBundle::extend(y, SecretBundle::from_secrets(secrets))) {
+                    Ok(n) => y = n,
+                    Err(p) => return Verdict::Violation("bundle-panics", format!("step {k} extend: {p}")),
+                }
+            }
+            "from_secrets" => {
+                let secrets: Vec<GroupSecret> = step["list"]
+                    .as_array()
+                    .unwrap()
+                    .iter()
+                    .map(|e| bind.secret(e["id"].as_u64().unwrap(), e["ts"].as_u64().unwrap()))
+                    .collect();
+                match catch(move || SecretBundle::from_secrets(secrets)) {
+                    Ok(n) => y = n,
+                    Err(p) => return Verdict::Violation("bundle-panics", format!("step {k} from_secrets: {p}")),
+                }
+            }
+            "generate" => {
+                generated_any = true;
+                let spec_err = step["err"].as_bool().unwrap();
+                let spec_overflow = step["overflow"].as_bool().unwrap();
+                // the id the spec chose for the fresh secret (on error none is produced: any seed)
+                let want_id = step["id"].as_u64().unwrap();
+                let seed = if want_id == 0 { 0 } else { bind.seed_for(want_id) };
+                let rng = CryptoRng::from_seed(seed32(seed));
+                let latest = y.latest().map(|l| (l.timestamp(), l.id()));
+                let res = catch(|| SecretBundle::generate(&y, &rng));
+                if mode == "now" && now_secs() != now0 {
+                    return Verdict::ClockMoved;
+                }
+                match res {
+                    Err(p) => {
+                        let sig = if latest.is_some_and(|(t, _)| t == u64::MAX) {
+                            "generate-overflow-at-max-timestamp"
+                        } else {
+                            "bundle-panics"
+                        };
+                        return Verdict::Violation(sig, format!("step {k} generate with latest {latest:?} panicked: {p}"));
+                    }
+                    Ok(Err(e)) => {
+                        if !spec_err {
+                            return Verdict::Violation(
+                                "generate-differs-from-spec",
+                                format!("step {k} generate returned Err({e}), spec says a secret with ts {}", step["ts"]),
+                            );
+                        }
+                        out.count("generate_err");
+                    }
+                    Ok(Ok(g)) => {
+                        // C36 on the real result, independent of the spec's number
+                        if let Some((lt, lid)) = latest {
+                            if (g.timestamp(), g.id()) <= (lt, lid) {
+                                let sig = if lt == u64::MAX {
+                                    "generate-overflow-at-max-timestamp"
+                                } else {
+                                    "generated-not-newer"
+                                };
+                                return Verdict::Violation(
+                                    sig,
+                                    format!(
+                                        "step {k} generate returned timestamp {} while the latest secret has {lt}",
+                                        g.timestamp()
+                                    ),
+                                );
+                            }
+                        }
+                        if spec_err || spec_overflow {
+                            return Verdict::Violation(
+                                "generate-differs-from-spec",
+                                format!("step {k} generate returned ts {}, spec says err={spec_err} overflow={spec_overflow}", g.timestamp()),
+                            );
+                        }
+                        if bind.spec_ts(g.timestamp()) != step["ts"].as_i64().unwrap() as i128 {
+                            return Verdict::Violation(
+                                "generate-differs-from-spec",
+                                format!(
+                                    "step {k} generate returned spec-time {} (real {}), spec says {}",
+                                    bind.spec_ts(g.timestamp()),
+                                    g.timestamp(),
+                                    step["ts"]
+                                ),
+                            );
+                        }
+                        if lt_gt(latest, &g) {
+                            out.count("generate_bumped");
+                        } else {
+                            out.count("generate_wall");
+                        }
+                        bind.generated.insert(want_id, g);
+                    }
+                }
+            }
+            _ => {
+                eprintln!("unknown op {op}");
+                std::process::exit(2);
+            }
+        }
+        // observable after the step: SecretBundleState::latest and the content
+        let got_latest = y.latest().map(|s| s.id());
+        if got_latest != real_max(&y) {
+            return Verdict::Violation(
+                "latest-not-max",
+                format!(
+                    "after step {k} ({op}): latest is {:?}, the maximum by (timestamp, id) is {:?}",
+                    got_latest.map(|i| bind.spec_id(&i)),
+                    real_max(&y).map(|i| bind.spec_id(&i))
+                ),
+            );
+        }
+        let got_latest_spec = got_latest.map(|i| bind.spec_id(&i)).unwrap_or(0);
+        if got_latest_spec != step["latest"].as_i64().unwrap() {
+            return Verdict::Violation(
+                "latest-differs-from-spec",
+                format!("after step {k} ({op}): latest is {got_latest_spec}, spec says {}", step["latest"]),
+            );
+        }
+        let got = content(&bind, &y);
+        let want = content_from_spec(&step["bundle"]);
+        if got != want {
+            return Verdict::Violation(
+                "bundle-differs-from-spec",
+                format!("after step {k} ({op}): bundle is {got:?}, spec says {want:?}"),
+            );
+        }
+    }
+    let _ = generated_any;
+    Verdict::Ok
+}
+
+/// true if the generated timestamp was bumped over the latest one (clock not ahead).
+fn lt_gt(latest: Option<(u64, GroupSecretId)>, g: &GroupSecret) -> bool {
+    latest.is_some_and(|(t, _)| g.timestamp() == t.wrapping_add(1))
+}
+
+fn nontrivial(b: &Value) -> bool {
+    // a tie on the timestamp among the bundle's secrets after some step, or a generate call
+    b["steps"].as_array().unwrap().iter().any(|s| {
+        if s["op"] == "generate" {
+            return true;
+        }
+        let mut seen = BTreeSet::new();
+        s["bundle"].as_array().unwrap().iter().any(|e| !seen.insert(e["ts"].as_i64().unwrap()))
+    })
+}
+
+fn replay(args: &Args) {
+    let behaviours = read_ndjson(args.input.as_ref().expect("--in"));
+    let w = World::new();
+    let mut out = Outcome::new(
+        args,
+        "every TLC-exported call sequence executed on the real SecretBundle (real SHA-256 ids, real clock, seeded RNG); \
+         latest / content / generate result compared after every call; non-trivial = some state with two secrets of \
+         equal timestamp or a generate call; distinct by behaviour",
+    );
+    for b in &behaviours {
+        out.eval();
+        let mut verdict = Verdict::ClockMoved;
+        for _ in 0..20 {
+            verdict = replay_one(&w, b, &mut out);
+            if !matches!(verdict, Verdict::ClockMoved) {
+                break;
+            }
+            out.count("rerun_second_boundary");
+        }
+        match verdict {
+            Verdict::Ok => {
+                if nontrivial(b) {
+                    out.mark_distinct(b.to_string());
+                }
+                out.sample(b.clone());
+            }
+            Verdict::ClockMoved => {
+                eprintln!("system clock changed second in 20 consecutive runs of one behaviour");
+                std::process::exit(2);
+            }
+            Verdict::Violation(sig, detail) => out.violation("C36", sig, detail, b.clone()),
+        }
+    }
+    out.write(args);
+}
+
+// ------------------------------------------------------------------------------------------
+// record
+
+/// TLC integers are 32 bit: recorded timestamps are real timestamps minus `shift`.
+const TLC_MAX: u64 = i32::MAX as u64;
+
+struct Recorded {
+    ev: Value,
+    /// real ids mentioned by the event, replaced by ranks once the run is complete
+    ids: Vec<GroupSecretId>,
+}
+
+fn record(args: &Args) {
+    let mut rng = Rng::new(args.seed);
+    let n = if args.n > 0 { args.n } else { 100 };
+    let mut trace = TraceWriter::create(args.out.as_ref().expect("--out"));
+    let mut out = Outcome::new(
+        args,
+        "seeded random call sequences on the real SecretBundle with random 32-byte secrets (ids by SHA-256), timestamps \
+         0 / colliding / around the real clock / far future / around u64::MAX, the real clock and OS-independent seeded RNG; \
+         one trace event per call; distinct by (run, call)",
+    );
+    let crng = CryptoRng::from_seed(seed32(args.seed ^ 0xABCD));
+    for run in 0..n {
+        // "top" runs live just below u64::MAX (recorded shifted so that u64::MAX is TLC's TopT)
+        let top_run = rng.chance(1, 5);
+        let shift: u64 = if top_run { u64::MAX - TLC_MAX } else { 0 };
+        let now = now_secs();
+        let mut ts_choices: Vec<u64> = if top_run {
+            vec![u64::MAX, u64::MAX - 1, u64::MAX - 2, u64::MAX - 5, u64::MAX - 1000]
+        } else {
+            vec![0, 1, 5, 5, now - 1, now, now + 1, now + 2, now + 1000, TLC_MAX - 101, TLC_MAX - 100, TLC_MAX - 100]
+        };
+        if !top_run {
+            ts_choices.push(rng.below(now));
+        }
+        let pool: Vec<[u8; 32]> = (0..rng.range(2, 7)).map(|_| rng.bytes(32).try_into().unwrap()).collect();
+        let mut generated: Vec<GroupSecret> = Vec::new();
+        let mut events: Vec<Recorded> = Vec::new();
+        let mut all_ids: BTreeSet<GroupSecretId> = BTreeSet::new();
+        let mut y = SecretBundle::init();
+        let mut pick = |rng: &mut Rng, generated: &Vec<GroupSecret>| -> GroupSecret {
+            if !generated.is_empty() && rng.chance(1, 3) {
+                rng.pick(generated).clone()
+            } else {
+                GroupSecret::new(*rng.pick(&pool), *rng.pick(&ts_choices))
+            }
+        };
+        let calls = rng.range(3, 14);
+        let mut failed = false;
+        for call in 0..calls {
+            out.eval();
+            out.mark_distinct(format!("{run}:{call}"));
+            let mut ids = Vec::new();
+            let mut ev;
+            let op = if call == 0 && rng.chance(1, 2) { 4 } else { rng.below(4) };
+            let res = match op {
+                0 => {
+                    let s = pick(&mut rng, &generated);
+                    ids.push(s.id());
+                    ev = json!({"ev": "Insert", "ts": s.timestamp() - shift});
+                    catch(move || SecretBundle::insert(y, s))
+                }
+                1 => {
+                    let id = if generated.is_empty() || rng.chance(2, 3) {
+                        GroupSecret::new(*rng.pick(&pool), 0).id()
+                    } else {
+                        rng.pick(&generated).id()
+                    };
+                    ids.push(id);
+                    ev = json!({"ev": "Remove"});
+                    let had = y.contains(&id);
+                    catch(move || {
+                        let (n, removed) = SecretBundle::remove(y, &id);
+                        assert_eq!(removed.is_some(), had, "remove result vs contains");
+                        n
+                    })
+                }
+                2 | 4 => {
+                    let mut list = Vec::new();
+                    let mut tss = Vec::new();
+                    for _ in 0..rng.below(4) {
+                        let s = pick(&mut rng, &generated);
+                        ids.push(s.id());
+                        tss.push(s.timestamp() - shift);
+                        list.push(s);
+                    }
+                    if op == 2 {
+                        // `extend` takes a bundle: ids unique in it (built by the real from_secrets)
+                        ev = json!({"ev": "Extend", "tss": tss});
+                        catch(move || SecretBundle::extend(y, SecretBundle::from_secrets(list)))
+                    } else {
+                        ev = json!({"ev": "FromSecrets", "tss": tss});
+                        catch(move || {
+                            drop(y);
+                            SecretBundle::from_secrets(list)
+                        })
+                    }
+                }
+                _ => {
+                    let t0 = now_secs();
+                    let r = catch(|| SecretBundle::generate(&y, &crng));
+                    let t1 = now_secs();
+                    let (wlo, whi) = if top_run { (0, 0) } else { (t0.min(t1), t0.max(t1)) };
+                    match r {
+                        Ok(Ok(g)) => {
+                            ids.push(g.id());
+                            ev = json!({"ev": "Generate", "err": false, "ts": g.timestamp().wrapping_sub(shift).min(TLC_MAX),
+                                        "wlo": wlo, "whi": whi});
+                            if g.timestamp() < shift {
+                                // wrapped around: not representable, report directly
+                                out.violation(
+                                    "C36",
+                                    "generate-overflow-at-max-timestamp",
+                                    format!("generate returned timestamp {} with latest at u64::MAX", g.timestamp()),
+                                    json!({"run": run, "call": call}),
+                                );
+                                failed = true;
+                            }
+                            generated.push(g);
+                            Ok(y)
+                        }
+                        Ok(Err(_)) => {
+                            ev = json!({"ev": "Generate", "err": true, "ts": 0, "wlo": wlo, "whi": whi});
+                            Ok(y)
+                        }
+                        Err(p) => {
+                            ev = json!({"ev": "Generate"});
+                            Err(p)
+                        }
+                    }
+                }
+            };
+            match res {
+                Ok(n) => y = n,
+                Err(p) => {
+                    let latest_max = events.last().is_some_and(|e: &Recorded| e.ev["latest_ts"] == json!(TLC_MAX)) && top_run;
+                    let sig = if ev["ev"] == "Generate" && latest_max {
+                        "generate-overflow-at-max-timestamp"
+                    } else {
+                        "bundle-panics"
+                    };
+                    out.violation("C36", sig, format!("{} panicked: {p}", ev["ev"]), json!({"run": run, "call": call, "ev": ev}));
+                    failed = true;
+                    break;
+                }
+            }
+            if failed {
+                break;
+            }
+            // observable
+            let latest = y.latest();
+            ev["latest_ts"] = json!(latest.map(|l| l.timestamp() - shift).unwrap_or(0));
+            ev["len"] = json!(y.len());
+            if let Some(l) = latest {
+                ids.push(l.id()); // last id = latest
+                ev["has_latest"] = json!(true);
+            } else {
+                ev["has_latest"] = json!(false);
+            }
+            all_ids.extend(ids.iter().cloned());
+            events.push(Recorded { ev, ids });
+        }
+        // ranks of the real ids (1-based, byte-wise order = the order the code compares ids in)
+        let rank: BTreeMap<GroupSecretId, usize> = all_ids.iter().enumerate().map(|(k, id)| (*id, k + 1)).collect();
+        trace.event(json!({"ev": "Reset", "run": run, "top": top_run}));
+        for Recorded { mut ev, mut ids } in events {
+            let has_latest = ev["has_latest"].as_bool().unwrap();
+            ev["latest"] = json!(if has_latest { rank[&ids.pop().unwrap()] } else { 0 });
+            ev.as_object_mut().unwrap().remove("has_latest");
+            let kind = ev["ev"].as_str().unwrap().to_string();
+            match kind.as_str() {
+                "Insert" | "Remove" => ev["id"] = json!(rank[&ids[0]]),
+                "Generate" => ev["id"] = json!(ids.first().map(|i| rank[i]).unwrap_or(0)),
+                _ => {
+                    let tss: Vec<u64> = ev["tss"].as_array().unwrap().iter().map(|t| t.as_u64().unwrap()).collect();
+                    let list: Vec<Value> = ids.iter().zip(tss).map(|(i, t)| json!([rank[i], t])).collect();
+                    ev["list"] = json!(list);
+                    ev.as_object_mut().unwrap().remove("tss");
+                }
+            }
+            out.sample(ev.clone());
+            trace.event(ev);
+        }
+    }
+    let (events, runs) = trace.finish();
+    out.set_trace(events, runs);
+    out.write(args);
 }
